@@ -74,7 +74,8 @@ impl C06 {
     if ey != y || n < 0 {
       out.nontrivial("step", &[y, i, n]);
     }
-    let t = SolarTerm::from_index(y as isize, i as isize).next(n as isize);
+    let o0 = SolarTerm::from_index(y as isize, i as isize);
+    let t = o0.next(n as isize);
     let e = SolarTerm::from_index(ey as isize, ei as isize);
     if out.wants_sample("step", ey != y) {
       out.sample("step", ey != y, || json!({"term": tname(y, i), "n": n, "expected": tname(ey, ei), "got": format!("{}#{}", t.get_year(), t.get_index())}));
@@ -86,6 +87,15 @@ impl C06 {
     let c = SolarTerm::from_index(y as isize, (i + n) as isize);
     if y * 24 + i + n >= 0 && (c.get_year() as i64 != ey || c.get_index() as i64 != ei || c.get_cursory_julian_day() != e.get_cursory_julian_day()) {
       out.fail(env, viol("step", "from_index_carry", case, &k, format!("SolarTerm::from_index({}, {})", y, i + n), tname(ey, ei), format!("{}#{}", c.get_year(), c.get_index())));
+    }
+    // ... and constructing the origin again right after a construction that carried out of the same year argument (and
+    // the carried one right after the plain one) gives the same two terms
+    let o1 = SolarTerm::from_index(y as isize, i as isize);
+    let c1 = SolarTerm::from_index(y as isize, (i + n) as isize);
+    if o1.get_julian_day().get_day() != o0.get_julian_day().get_day() || o1.get_cursory_julian_day() != o0.get_cursory_julian_day() || o1.get_year() != o0.get_year() {
+      out.fail(env, viol("step", "construction_depends_on_the_previous_construction", case, &k, format!("SolarTerm::from_index({}, {}) right after from_index({}, {})", y, i, y, i + n), format!("jd {}", o0.get_julian_day().get_day()), format!("jd {}", o1.get_julian_day().get_day())));
+    } else if y * 24 + i + n >= 0 && (c1.get_julian_day().get_day() != e.get_julian_day().get_day() || c1.get_year() as i64 != ey) {
+      out.fail(env, viol("step", "construction_depends_on_the_previous_construction", case, &k, format!("SolarTerm::from_index({}, {}) right after from_index({}, {})", y, i + n, y, i), format!("{} jd {}", tname(ey, ei), e.get_julian_day().get_day()), format!("{}#{} jd {}", c1.get_year(), c1.get_index(), c1.get_julian_day().get_day())));
     }
   }
 
